@@ -41,7 +41,7 @@ class _Zygote:
         env["SIMBOX_SHM"] = SHM
         env["PYTHONDONTWRITEBYTECODE"] = "1"
         env.pop("PYTHONPATH", None)
-        cmd = [PY, os.path.join(HERE, "zygote.py"), str(r1), str(w2)]
+        cmd = [PY, os.path.join(HERE, "zygote.py"), f"{r1:08d}", f"{w2:08d}"]  # fixed width: argv must not perturb the heap
         if shutil.which("setarch"):
             cmd = ["setarch", platform.machine(), "-R"] + cmd
         self.proc = subprocess.Popen(
